@@ -512,3 +512,15 @@ VARIANTS += [
     fire('r6-build-indent-skips-model-tokens', ['C01'], [(PA, _BI_OLD, "        for cursor in range(self._cursor, len(self._tokens)):\n            token = self._tokens[cursor]\n            if token.type == 'INDENT' and token.value:\n                self._fix_gap(cursor)\n                return self._build_token(token)\n")], 'BUILDER-CONS'),
     silent('r6-twin-build-indent-for-loop', ['C01'], [(PA, _BI_OLD, "        for cursor in range(self._cursor, len(self._tokens)):\n            token = self._tokens[cursor]\n            if not token.value:\n                continue\n            if token.type == 'INDENT':\n                self._fix_gap(cursor)\n                return self._build_token(token)\n            if token.type not in _IGNORED_TOKENS:\n                break\n")]),
 ]
+
+# ---------------------------------------------------------------------- round 7
+VARIANTS += [
+    fire('fix-revert-inline-add-expr', ['C15'], [(NA, "    RULE = 'number_add_expr'\n    INLINE = True\n", "    RULE = 'number_add_expr'\n")], 'INLINE-EOL'),
+    fire('r7-claimer-iterates-comments-twice', ['C14'], [(IC, "        self._repeated = repeated\n        self._notify = notify\n", "        self._repeated = repeated\n        self._notify = notify\n        if comments is not None and any(c.token_store is not repeated.token_store for c in comments):\n            pass\n")], 'ITER-ONCE'),
+    silent('r7-twin-claimer-materialised', ['C14'], [(IC, "        self._repeated = repeated\n        self._notify = notify\n", "        self._repeated = repeated\n        self._notify = notify\n        if comments is not None:\n            comments = list(comments)\n            _ = len(comments)\n")]),
+    fire('r7-unary-minus-again', ['C09'], [(NU, "            return self._operand.value.copy_negate()", "            return 0 - self._operand.value")], 'DEC-EXACT'),
+    fire('r7-imuldiv-ops-prepended', ['C13'], [(NE, "            self_mul_expr.raw_ops + (mul_op,))", "            (mul_op,) + self_mul_expr.raw_ops)")], 'OP-SEM'),
+    silent('r7-twin-imuldiv-unpack', ['C13'], [(NE, "            self_mul_expr.raw_operands + (atom_expr,),\n            self_mul_expr.raw_ops + (mul_op,))", "            (*self_mul_expr.raw_operands, atom_expr),\n            (*self_mul_expr.raw_ops, mul_op))")]),
+    fire('r7-editor-normpath-edit-file', ['C16'], [(ED, "        p = pathlib.Path(path)\n", "        p = pathlib.Path(os.path.normpath(path))\n")], 'ED-SPELL'),
+    fire('r7-pop-clears-claimed', ['C05', 'C14'], [(IC, "    def auto_claim_comments(self) -> None:\n        super().auto_claim_comments()\n        self.claim_interleaving_comments()", "    def pop(self, index: int = -1):  # type: ignore[override]\n        value = super().pop(index)\n        if isinstance(value, BlockComment):\n            value.claimed = False\n        return value\n\n    def auto_claim_comments(self) -> None:\n        super().auto_claim_comments()\n        self.claim_interleaving_comments()")], 'FLAG-WRITERS'),
+]
